@@ -11,6 +11,7 @@ import GeoProofs.Lemmas.C14Flat
 import GeoProofs.Lemmas.C14PRing
 import GeoProofs.Lemmas.C14PPairs
 import GeoProofs.Lemmas.SMLXHolePair
+import GeoProofs.Lemmas.TRAN2Valid
 import Mathlib.Tactic.Ring
 
 namespace Geo.Proofs.C14
@@ -938,4 +939,22 @@ theorem onLine_holes_sound (f : XRing → Bool) (p : XPoly) (i j : Nat)
   have e3 : (Role.int i != Role.int j) = true := by simp; omega
   simp [polyErrSound, hq, getRingQ, hgi, hgj, e1, e2, e3, ringsShareLine, hbb]
 
+/-! ### tie to the source -/
+
+/-- [E2] (translator tie) the helper predicates of validation/utils.rs in the model are the terms `translator/rs2lean.py`
+regenerates on every run from the Rust bodies (`GeoModel/Gen/ValidGen.lean`): `check_coord_is_not_finite` (both components
+finite), `check_too_few_points` (4 for a ring, 2 otherwise, strict `<`, after `remove_repeated_points`),
+`chained_lines_overlap` (the zero-length guards, which end is the pivot, collinearity and the same-side test in x or y) and
+`linestring_has_self_intersection` on finite coordinates (the double loop over `lines().enumerate()`, `i != j`, the
+`intersects` test, the shared-end-point exemption, the early returns). A changed constant, comparison, operand or branch
+changes the regenerated definition and this theorem stops checking. -/
+theorem validationUtils_eq_source :
+    (∀ c : XPt, Gen.checkCoordIsNotFinite c = notFinite c) ∧
+    (∀ (r : XRing) (isRing : Bool), Gen.checkTooFewPoints r isRing = tooFew r isRing) ∧
+    (∀ l o : Pt × Pt, Gen.chainedLinesOverlap l o = chainedOverlap l o) ∧
+    (∀ r : List Pt, Gen.linestringHasSelfIntersection r = hasSelfIntersection r) :=
+  ⟨Geo.Proofs.TRAN2Valid.notFinite_eq, Geo.Proofs.TRAN2Valid.tooFew_eq, Geo.Proofs.TRAN2Valid.chainedOverlap_eq,
+   Geo.Proofs.TRAN2Valid.hasSelfIntersection_eq⟩
+
 end Geo.Proofs.C14
+
